@@ -15,7 +15,7 @@ import (
 )
 
 var FileType = NewType("file", `represents an open file`)
-var errClosed = ExceptionNewf(ValueError, "I/O operation on closed file.")
+var errClosed = ExceptionTemplatef(ValueError, "I/O operation on closed file.")
 
 func init() {
 	FileType.Dict["write"] = MustNewMethod("write", func(self Object, value Object) (Object, error) {
